@@ -25,7 +25,7 @@ func init() {
 				n = 1600
 			}
 			return fw.Meta{N: n, Level: "fault_enumeration", Chunk: 2, CaseTimeoutS: 600, MinNT: 30,
-				Rule:        "one case = one generated table (2..9 keys, values 1..60 bytes, some tables additionally carry empty and nil values; data compression none/gzip/snappy/lzw; index loader default/disk/skiplist/slice by case); damaged copies of its data file: every byte offset x {8 single-bit flips, 0x00, 0xFF, 0x91, 0x8d, 0x4c} (tables <= 2 KiB, seeded offsets + all header bytes beyond), every truncation length, every swap of two records. Each copy is read (a) with default options: open must fail or every Get/ScanRange/Scan step returns the written value; (b) with SkipHashCheckOnLoad+EnableHashCheckOnReads: each Get/scan step errors or returns the written value. A panic counts as a violation. Empty/nil values are only required to stay empty/nil under byte alterations of uncompressed (header-protected) tables. evaluations = damaged copies x 2 modes; non-trivial = table with >=2 non-empty values; distinct by table content hash",
+				Rule:        "one case = one generated table (2..9 keys, values 1..60 bytes, some tables additionally carry empty and nil values; data compression none/gzip/snappy/lzw; index loader default/disk/skiplist/slice by case); damaged copies of its data file: every byte offset x {8 single-bit flips, 0x00, 0xFF, 0x91, 0x8d, 0x4c} (tables <= 2 KiB, seeded offsets + all header bytes beyond), every truncation length, every swap of two records. Each copy is read (a) with default options: open must fail or every Get/ScanRange/Scan step returns the written value; (b) with SkipHashCheckOnLoad+EnableHashCheckOnReads (both orders of the two options, before and after the other options): each Get/scan step errors or returns the written value. Every key is fetched twice in a row and once more after the scans on the same reader. A panic counts as a violation. Empty/nil values are only required to stay empty/nil under byte alterations of uncompressed (header-protected) tables. evaluations = damaged copies x 2 modes; non-trivial = table with >=2 non-empty values; distinct by table content hash",
 				MinObs:      map[string]int64{"damaged_copies": 20000, "rejected_at_open": 5000, "rejected_at_read": 2000, "served_original_value": 2000, "truncations": 2000, "record_swaps": 50, "tables_with_empty_or_nil_value": 5},
 				Assumptions: []string{"a CRC32/CRC64 collision would be reported as a violation (probability negligible for the enumerated single-byte damage)"},
 			}
@@ -120,8 +120,10 @@ func runC09(c *fw.Case) {
 		return true
 	}
 
+	copyNo := 0
 	evalCopy := func(kind string, d []byte, what string) {
 		curKind = kind
+		copyNo++
 		if err := os.WriteFile(dataPath, d, 0644); err != nil {
 			c.Violate("harness/write-dmg", "%v", err)
 			return
@@ -146,7 +148,17 @@ func runC09(c *fw.Case) {
 				}
 				if mode == 1 {
 					mname = "verify-on-read"
-					opts = append(opts, sstables.SkipHashCheckOnLoad(), sstables.EnableHashCheckOnReads())
+					// options are a set: both spellings of the combination, and both positions relative to the other options
+					switch copyNo % 4 {
+					case 0:
+						opts = append(opts, sstables.SkipHashCheckOnLoad(), sstables.EnableHashCheckOnReads())
+					case 1:
+						opts = append(opts, sstables.EnableHashCheckOnReads(), sstables.SkipHashCheckOnLoad())
+					case 2:
+						opts = append([]sstables.ReadOption{sstables.EnableHashCheckOnReads(), sstables.SkipHashCheckOnLoad()}, opts...)
+					default:
+						opts = append([]sstables.ReadOption{sstables.SkipHashCheckOnLoad()}, append(opts, sstables.EnableHashCheckOnReads())...)
+					}
 				}
 				rd, err := sstables.NewSSTableReader(opts...)
 				if err != nil {
@@ -158,18 +170,37 @@ func runC09(c *fw.Case) {
 					c.Violate("sstable-damage/different-value-served/"+kind+"/"+mname+"/"+access+feat,
 						"%s %s [%s]: %s of key %x returned %s without error; written value %s", cfg, what, mname, access, kvs[i].k, fw.Hex(got), fw.Hex(kvs[i].v))
 				}
-				for i, e := range kvs {
-					got, err := rd.Get(e.k)
-					if err != nil {
-						c.Obs("rejected_at_read", 1)
-						continue
+				// every key is fetched twice in a row (a caller retrying after an error must not be served the damaged
+				// bytes the second time) and once more after the scans: the verdict of a reader must not depend on
+				// what it was asked before
+				getAll := func(access string, times int) bool {
+					for i, e := range kvs {
+						for t := 0; t < times; t++ {
+							got, err := rd.Get(e.k)
+							if err != nil {
+								c.Obs("rejected_at_read", 1)
+								continue
+							}
+							if !acceptable(i, got) {
+								if t > 0 {
+									access += "-repeated"
+								}
+								bad(access, i, got)
+								return false
+							}
+							c.Obs("served_original_value", 1)
+						}
 					}
-					if !acceptable(i, got) {
-						bad("Get", i, got)
-						return
-					}
-					c.Obs("served_original_value", 1)
+					return true
 				}
+				if !getAll("Get", 2) {
+					return
+				}
+				defer func() {
+					if !c.Violated() {
+						getAll("Get-after-scans", 1)
+					}
+				}()
 				for pass := 0; pass < 2; pass++ {
 					var it sstables.SSTableIteratorI
 					var err error
